@@ -97,7 +97,9 @@ func (snt *ScrapligoNetconfTarget) EditConfig(target string, config string) (*ty
 	if err != nil {
 		return nil, err
 	}
-	if len(resp.ErrorMessages) > 0 {
+	// a reply that carries rpc-errors is handed on only if every one of them is a warning: errors, and rpc-errors the
+	// severity of which cannot be told (no severity element, a namespace prefix), fail the edit
+	if len(resp.ErrorMessages) > 0 || (resp.Failed != nil && len(resp.WarningErrorMessages) == 0) {
 		return nil, resp.Failed
 	}
 
